@@ -118,7 +118,6 @@ package drpcstream
 //@   ensures [id] s.id.Stream == old(s.id.Stream) && s.id.Message == old(s.id.Message) + 1
 
 //@ func (*Stream).terminateIfBothClosed
-//@   site (*Signal).Set assert [nonnil-set] arg1 != nil
 //@   props C03
 //@   requires held(s.mu.Mutex)
 //@   ensures [C03.both] old(sSend(s)) && old(sRecv(s)) ==> sTerm(s)
